@@ -20,10 +20,10 @@ ASSUMPTIONS = [
     'names with documented special handling (print, serialize/serializable beyond the flag, ipython names, gtsam::Values::insert) are not in the alphabet',
 ]
 
-SCOPES = [[], ['a'], ['a', 'b'], ['a', 'b', 'c'], ['a', 'b2'], ['z']]
+SCOPES = [[], ['a'], ['a', 'b'], ['a', 'b', 'c'], ['a', 'b2'], ['g', 'h'], ['z']]   # g holds nothing but the namespace h
 TOPS = {
     'root': [''], 'd1': ['', 'a'], 'd2': ['', 'a', 'b'], 'd3': ['', 'a', 'b', 'c'], 'sibling': ['', 'z'],
-    'nonmatch': ['', 'q'], 'partial': ['', 'a', 'q'], 'inner-name': ['', 'b'],
+    'nonmatch': ['', 'q'], 'partial': ['', 'a', 'q'], 'inner-name': ['', 'b'], 'grouping': ['', 'g'],
 }
 
 
@@ -45,6 +45,7 @@ def entity(kind, path, seed=0):
             D.method(single(T('int')), 'get', [], 1), D.method(single(T('int')), 'get', [arg(T('int'), 'i')], 1),
             D.method(single(T('void')), 'setIt', [arg(T(q(path, C), 1, '&'), 'o'), arg(T('string'), 'n', '"x"')]),
             D.static(single(T(q(path, C))), 'Make', [arg(T('size_t'), 'n')]),
+            D.method(single(T('void')), 'print', [arg(T('string', 1, '&'), 's', '""')], 1),
             D.prop(T('int'), 'count'), D.prop(T('double', 1), 'fixed'),
             D.op(single(T(q(path, C))), '+', [arg(T(q(path, C), 1, '&'), 'o')]),
             D.op(single(T(q(path, C))), '-', []),
@@ -70,13 +71,15 @@ def entity(kind, path, seed=0):
     if kind == 'derived':
         B, C = 'Ba' + s, 'De' + s
         return [D.cls(B, [D.method(single(T('int')), 'base', [], 1)], v=1),
-                D.cls(C, [D.ctor(C), D.method(single(T('int')), 'derived', [], 1)], v=1, b=T(q(path, B)))]
+                D.cls(C, [D.ctor(C), D.method(single(T('int')), 'derived', [], 1)], v=1, b=T(q(path, B))),
+                # a derived class that also owns an enum (bound through a named py::class_ variable)
+                D.cls('Dn' + s, [D.enum('Mode', ['ON', 'OFF']), D.ctor('Dn' + s)], v=1, b=T(q(path, B)))]
     if kind == 'enum':
         return [D.enum('En' + s, ['A' + s, 'B' + s, 'C' + s]), D.enum('Es' + s, ['X'], 'enum class')]
     if kind == 'func':
         return [D.func(single(T('int')), 'fn' + s, [arg(T('int'), 'a')]),
                 D.func(single(T('int')), 'fn' + s, [arg(T('double'), 'x'), arg(T('string', 1, '&'), 'name', '"n"')]),
-                D.func(single(T('void')), 'other' + s, [])]
+                D.func(single(T('void')), 'other' + s, []), D.func(single(T('void')), 'print', [arg(T('int'), 'v' + s)])]
     if kind == 'tfunc':
         return [D.func(single(T('T')), 'tf' + s, [arg(T('T', 1, '&'), 'a'), arg(T('int'), 'k', '2')],
                        tpl=[D.tparam('T', [T('int'), T('ns::Pose')])])]
@@ -121,7 +124,7 @@ def build(kinds, seed=0):
     a = content(['a'])
     a = a[:2] + [D.ns('b', b)] + a[2:] + [D.ns('b2', b2)]
     g = content([])
-    return g[:1] + [D.ns('a', a)] + g[1:] + [D.ns('z', content(['z']))]
+    return g[:1] + [D.ns('a', a)] + g[1:] + [D.ns('g', [D.ns('h', content(['g', 'h']))]), D.ns('z', content(['z']))]
 
 
 def ignore_sets(kinds):
@@ -227,7 +230,7 @@ def why(r, kinds):
             name += ' ' + x
     lab = 'other'
     for pre, k in (('Cf_', 'class_full'), ('Tc_', 'tclass'), ('Tt', 'typedef'), ('Ce_', 'enumclass'), ('Ba_', 'derived'),
-                   ('De_', 'derived'), ('En_', 'enum'), ('Es_', 'enum'), ('fn_', 'func'), ('other_', 'func'), ('tf_', 'tfunc'),
+                   ('De_', 'derived'), ('Dn_', 'derived'), ('En_', 'enum'), ('Es_', 'enum'), ('fn_', 'func'), ('other_', 'func'), ('tf_', 'tfunc'),
                    ('kVal_', 'var'), ('counter_', 'var'), ('Fw', 'fwdtypedef'), ('Kw_', 'kwnames'), ('Kp_', 'kwprops'),
                    ('Ek_', 'kwprops'), ('Se_', 'serial'), ('Sb_', 'serial')):
         if pre in name:
@@ -277,7 +280,7 @@ def run(ctx):
     return {
         'evaluations': len(cases),
         'distinct_nontrivial': len({(tuple(c['kinds']), c['top'], tuple(c['ignore']), c['ser']) for c in cases}),
-        'rule': '12 entity kinds placed in each of 6 namespace scopes; singles x 8 top-namespace settings x all '
+        'rule': '12 entity kinds placed in each of 7 namespace scopes (one under a namespace that holds nothing but a namespace); singles x 9 top-namespace settings x all '
                 'applicable ignore lists x serialization flag; all ordered pairs of kinds x %d top settings%s; '
                 'every (module, options) pair is distinct; registrations scanned and compared as a multiset with the '
                 'reference API' % (len(pair_tops), '; pairs x ignore lists; all unordered triples x 2 tops' if ctx.thorough else ''),
